@@ -17,6 +17,19 @@ CLAIMED = {
         'bytes): both are covered by the differential runs only. The model stops at the first diagnostic; the number and text of later diagnostics are not modelled.',
    technique='Coq proof (induction over the fuelled mutual recogniser via factored bodies, invariant on the accumulated tree) + differential runs with a defect catalogue',
    ref='DESIGN 6 C14'),
+ 'C15': dict(
+   text='Coq theorems: the day count of the model is the Gregorian calendar on 1970-2037 (origin, and every one of the 24837 days steps by one: finite sweep lifted); each of the '
+        'three Date layouts parses back to the fields printed (second 0 for the layout without seconds) and timeparse picks the printed layout; tzoff is exact on -2359..+2359 and '
+        'rejects hours > 23 / minutes > 59; time_parse of a printed date with a numeric zone or GMT/UT/UTC is the true instant - the local zone is not an input; date > N and '
+        'date < N are strict comparisons of (now - instant) with N x unit, so thresholds 1 s either side decide as stated; the unit table and the unambiguous abbreviations; ages '
+        'that overflow are rejected (C14). The formula before the repair is refuted (F-13). Tied by time_parse through a driver that sets TZ and the clock per request (13 zone '
+        'settings with and without DST, instants uniform over 1970-2037 and around DST switches, all layouts and zones) judged by an independent calendar, compared with the '
+        'extracted model; and by the binary with a pinned clock on messages aged N-1, N, N+1 seconds for every unit spelling, header and file-mtime fields. '
+        'Defect F-13 repaired by a fix: commit (timegm).',
+   note='strptime / timegm / the zone database are libc: the model parses only the printed forms and counts days itself; lenient strptime inputs are not modelled. '
+        'created / access use st_ctime / st_atime, which the harness cannot set: only modified is exercised on the binary.',
+   technique='Coq proof (finite calendar sweep lifted, printer/parser round trip, linear arithmetic) + differential runs with pinned clock and zone settings',
+   ref='DESIGN 6 C15'),
  'C16': dict(
    text='Coq theorems about the hand-written model of decode.c: base64_decode = RFC 4648 spec for every byte string, '
         'target bound branches unreachable, QP inverts every QP rendering and never fails, RFC 2047 total / raw on malformed '
@@ -82,6 +95,19 @@ CLAIMED = {
         'Genuine defect F-05 (flags parsed from the whole path) repaired by fix: commit d135c7f.',
    technique='Coq proof (bit-level lemmas via testbit, pigeonhole on distinct candidates, injectivity of decimal rendering) + pinned-environment differential runs',
    ref='DESIGN 6 C09'),
+ 'C17': dict(
+   text='Coq theorems (partial): parties run the I/O protocols of IODefs unchanged (move, cross-device move, rewrite = label / add-header, discard; flag is a move) or are a mail '
+        'client renaming / deleting the message; calls are atomic, arbitrarily interleaved, outcomes come from the shared directory state. For EVERY pair and EVERY triple of '
+        'such parties and EVERY schedule: once all have finished the message exists exactly once, intact - or not at all if a deleting party reports success -, no empty or '
+        'partial file remains, a party reporting success owns the surviving copy, and no party modifies a name another party created. Proof by exhaustive exploration checked '
+        'by the kernel (a table closed under every step contains every reachable state). Tied by running mdsort under the interposer with a second party (another mdsort: '
+        'move / cross-device move / flag / label / discard, or mv / rm) run to completion before every call k of the first, for all 42 scenario pairs: the final tree is judged '
+        'by the property itself and, when the second party met the original message, the outcome must be one the model can reach.',
+   note='Bound: at most three parties (stated in the theorems). Known finding F-16: a second mdsort that WALKS the maildir while the first one\'s uncommitted rewritten copy is '
+        'visible there (copies are created in new/ or cur/, not tmp/) selects it as a message - the message is duplicated; outside the single-message model, exhibited on the '
+        'binary and listed in known-findings.txt. Only one preemption point per binary run; thread-level simultaneity inside the kernel is not exercised.',
+   technique='Coq proof (exhaustive reachable-state exploration by reflection, closure lemma) + schedule-controlled differential runs under the interposer',
+   ref='DESIGN 6 C17'),
  'C18': dict(
    text='Coq theorems: pathjoin, bounded copy, pathslice (single-pass copy loop with its bufsiz accounting) and the generated name return either an error or '
         'exactly the intended string (pathslice = the selected components of the path cut before every "/"), never a prefix. Tied by exhaustive differential '
